@@ -167,7 +167,7 @@ def run_chunk(job, seed, lo, hi, tier, hashes_prefix=None, keep_hashes=False):
             if hung:
                 signame = "hang"
             res.fails.append({
-                "run": last_run, "planhash": "", "class": "crash.%s" % signame, "step": -1, "site": "process",
+                "run": last_run, "proc_lo": cur, "planhash": "", "class": "crash.%s" % signame, "step": -1, "site": "process",
                 "msg": "worker died (%s) during run %d; stderr tail: %s" % (signame, last_run, err[-400:].replace("\n", " | ")),
             })
         cur = last_run + 1
@@ -499,6 +499,41 @@ def run_job(prop, job, tier, seed, report, spec=None):
     return violations
 
 
+def run_range(job, tier, seed, lo, hi, timeout=300):
+    """Re-runs runs [lo,hi) in one worker process (same process history as the original worker).
+    Returns the class of the failure of the last run, or None."""
+    cmd = job.cmd_prefix(tier) + [job.engine, "run", "--seed", str(seed), "--from", str(lo), "--to", str(hi)] + job.extra_args
+    if tier == "thorough":
+        cmd.append("--thorough")
+    try:
+        p = subprocess.run(cmd, stdout=subprocess.PIPE, stderr=subprocess.PIPE, text=True, env=job.env(), timeout=timeout, errors="replace")
+    except subprocess.TimeoutExpired:
+        return "crash.hang"
+    last_run, done = None, set()
+    cls = None
+    for line in p.stdout.splitlines():
+        if line.startswith("RUN "):
+            last_run = int(line[4:])
+        elif line.startswith("OK "):
+            done.add(int(line.split(" ")[1]))
+        elif line.startswith("FAIL "):
+            try:
+                d = parse_fail(line)
+            except (IndexError, ValueError):
+                continue
+            done.add(d["run"])
+            if d["run"] == hi - 1:
+                cls = d["class"]
+    if cls is None and last_run is not None and last_run not in done:
+        sig = -p.returncode if p.returncode and p.returncode < 0 else p.returncode
+        try:
+            sig = signal.Signals(sig).name
+        except Exception:
+            pass
+        cls = "crash.%s" % sig
+    return cls
+
+
 def write_replay(prop, job, tier, seed, run, plan, viol, extra=None):
     os.makedirs(os.path.join(REPLAYS, prop), exist_ok=True)
     path = os.path.join(REPLAYS, prop, "%s-seed%d-run%d.json" % (job.label, seed, run))
@@ -530,8 +565,25 @@ def report_violation(prop, v, tier, seed, accept=None):
         log("#   class=%s site=%s: %s" % (v["class"], v["site"], v["msg"]))
         return path
     if not (first["status"] in ("fail", "crash") and first["class"] == target):
+        # the failure depends on what the worker process ran before (e.g. heap state after
+        # undefined behaviour): replay the worker's range of runs instead of the single plan
+        lo = v.get("proc_lo")
+        if lo is not None and target.startswith("crash."):
+            got = run_range(job, tier, seed, lo, v["run"] + 1)
+            if got is not None and got.startswith("crash."):
+                os.makedirs(os.path.join(REPLAYS, prop), exist_ok=True)
+                path = os.path.join(REPLAYS, prop, "%s-seed%d-runs%d-%d.json" % (job.label, seed, lo, v["run"]))
+                with open(path, "w") as f:
+                    json.dump({"kind": "range", "property": prop, "package": job.package, "engine": job.engine, "label": job.label, "tier": tier, "seed": seed,
+                               "from": lo, "to": v["run"] + 1, "violation": {"class": got, "site": "process", "message": v.get("msg", "")},
+                               "note": "the single plan of run %d does not fail in a fresh process; the worker's runs %d..%d, replayed in one process, do" % (v["run"], lo, v["run"])}, f, indent=1, sort_keys=True)
+                    f.write("\n")
+                log("VIOLATION property=%s replay=%s" % (prop, path))
+                log("#   class=%s: worker process dies in run %d after runs %d..%d (single plan alone does not reproduce)" % (got, v["run"], lo, v["run"] - 1))
+                return path
         note = "full plan did not reproduce in a fresh process (got %s %s)" % (first["status"], first.get("class"))
-        mini, tries = plan, 0
+        log("# a failure of %s in run %d (%s) did not reproduce, neither alone nor with its process history; not reported" % (job.label, v["run"], target))
+        return None
     else:
         mini, tries = minimise(job, plan, target, tier)
     final = job.exec_plan(mini, tier)
@@ -630,6 +682,16 @@ def replay(prop, path):
     from properties import PROPS, job_for
     with open(path) as f:
         doc = json.load(f)
+    if doc.get("kind") == "range":
+        job = job_for(doc["package"], doc["engine"], doc.get("label"), None)
+        job.build(doc.get("tier", "quick"))
+        got = run_range(job, doc.get("tier", "quick"), doc["seed"], doc["from"], doc["to"])
+        if got is not None:
+            log("VIOLATION property=%s replay=%s" % (prop, path))
+            log("#   class=%s in run %d of the range" % (got, doc["to"] - 1))
+            return 1
+        log("# replay did not fail: the recorded violation (%s) does not occur on this tree" % doc["violation"]["class"])
+        return 0
     if doc.get("kind") and doc["kind"] != "plan":
         from properties import replay_special
         return replay_special(prop, doc, path)
